@@ -23,6 +23,10 @@ branches, threaded `St`) from the real interpreter functions, and answers `true`
   (c) `runState`: `Type` is none of the eight,
   (d) `handleErr`: the matching Catcher has no string `Next`,
   (e) `runBranches` / `runItems`: the branch / iterator lacks a string `StartAt` or `States`.
+
+The execution's time limit (`Env.deadline`) and the stop of Map batches after a failure are not mirrored: `ill*`
+follows the untimed control flow, so for a run that the limit cuts short (or a Map that fails in an early batch) it
+may name a site the run no longer reaches — an over-approximation, which is the safe side for C18's use of it.
 -/
 import AslModel.Interp
 namespace Asl.Machine
